@@ -369,33 +369,27 @@ func c02Mint(c *Ctx) {
 	c.Check(skOK, rule, key+" NewSigner.key", sg.Pos(), "signs with HS256 under security.SigningKey (the variable the verifier loads)", "the signer is not HS256 under security.SigningKey: a freshly minted token would not verify, or a different key/algorithm is in use")
 
 	// claims
-	var std *ssa.Alloc
-	eachInstr(fn, func(in ssa.Instruction) {
-		if al, ok := in.(*ssa.Alloc); ok && typeIs(al.Type(), joseJWT, "Claims") {
-			std = al
-		}
-	})
-	if std == nil {
+	st, stdPos, holdsStd, okStd := c.claimsOf(fn)
+	if !okStd {
 		c.Undecided(rule, key+" claims", fn.Pos(), "standard claims literal not found")
 		return
 	}
-	st := structFieldStores(std)
 	iss, isConst := constString(first(st["Issuer"]))
-	c.Check(isConst && ver.ok && iss == ver.issuer && iss != "", rule, key+" issuer", std.Pos(),
+	c.Check(isConst && ver.ok && iss == ver.issuer && iss != "", rule, key+" issuer", stdPos,
 		"issuer constant "+strconvQuote(iss)+" equals the verifier's expected issuer",
 		"minted issuer "+strconvQuote(iss)+" differs from the verifier's expected issuer "+strconvQuote(ver.issuer))
 	if ok, how := expiryShape(first(st["Expiry"]), fiveMinutesNs); ok {
-		c.OK(rule, key+" expiry", std.Pos(), "expiry is %s", how)
+		c.OK(rule, key+" expiry", stdPos, "expiry is %s", how)
 	} else {
-		c.Bad(rule, key+" expiry", std.Pos(), "minted tokens must expire within five minutes of issuance: %s", how)
+		c.Bad(rule, key+" expiry", stdPos, "minted tokens must expire within five minutes of issuance: %s", how)
 	}
 	if nb := st["NotBefore"]; len(nb) > 0 {
-		c.Undecided(rule, key+" nbf", std.Pos(), "NotBefore is set; a freshly minted token may not be accepted")
+		c.Undecided(rule, key+" nbf", stdPos, "NotBefore is set; a freshly minted token may not be accepted")
 	}
 	if sub := first(st["Subject"]); sub == nil || sub != ssa.Value(fn.Params[1]) {
-		c.Bad(rule, key+" subject", std.Pos(), "subject is not the user name parameter")
+		c.Bad(rule, key+" subject", stdPos, "subject is not the user name parameter")
 	} else {
-		c.OK(rule, key+" subject", std.Pos(), "subject is the user name parameter")
+		c.OK(rule, key+" subject", stdPos, "subject is the user name parameter")
 	}
 
 	// builder: token = jwt.Signed(sig).Claims(standard).Claims(private).Serialize()
@@ -425,7 +419,7 @@ func c02Mint(c *Ctx) {
 				if strings.HasSuffix(n, ".Claims") {
 					nClaims++
 					a0 := strip(arg(bc, 0))
-					if ad, ok := loadAddr(a0); ok && ad == std {
+					if holdsStd(a0) {
 						hasStd = true
 					} else if ad, ok := loadAddr(a0); ok {
 						if al, ok := ad.(*ssa.Alloc); ok && typeIs(al.Type(), modPath+"/cmd/rdpgw/security", "customClaims") {
